@@ -203,6 +203,22 @@ def run_rules(ctx, cid, n_years):
                 wk = rule.get_weeks_in_week_year(y, cal)
             except Exception as e:  # noqa: BLE001
                 ctx.exc(e); continue
+            # the reported number of weeks is exact: some day of week `wk` exists (and, for the BCL-style rules, it is the .NET week number of the year's last day)
+            ctx.ev(); ctx.count("weeks_in_year_exact")
+            some = 0
+            for dv in range(1, 8):
+                try:
+                    x_ = rule.get_local_date(y, wk, IsoDayOfWeek(dv), cal)
+                    if (rule.get_week_year(x_), rule.get_week_of_week_year(x_)) == (y, wk): some += 1
+                except Exception as e:  # noqa: BLE001
+                    ctx.exc(e)
+            if some == 0:
+                ctx.V("C16:weeks-in-week-year-not-attained", f"{cid} rule {name}: get_weeks_in_week_year({y}) = {wk}, but no day of the week has a date in week {wk} of that week-year", {"kind": "triple", "cal": cid, "rule": name, "y": y, "w": wk, "dow": 0}, wk)
+            if irregular:
+                last = ys.start(y + 1)
+                b_ = model_bcl(ys, last - 1, y, m, f) if last is not None else None
+                if b_ is not None and b_ != (y, wk):
+                    ctx.V("C16:bcl-weeks-in-year", f"{cid} rule {name}: get_weeks_in_week_year({y}) = {wk}; by the .NET algorithm the last day of {y} is in (week-year, week) {b_}", {"kind": "triple", "cal": cid, "rule": name, "y": y, "w": wk, "dow": 0}, wk, b_)
             for w in sorted({1, wk, wk + 1, wk + 2, 52, 53, 54, 55, 0, -1, rng.randint(1, wk)}):
                 dow = IsoDayOfWeek(rng.randint(1, 7))
                 case = {"kind": "triple", "cal": cid, "rule": name, "y": y, "w": w, "dow": dow.value}
